@@ -130,23 +130,21 @@ Lemma hist_okb_spec L o : hist_okb L o = true ->
 Proof.
   destruct o as [p a [r|] u sched|p a [r|] u rm|p a u|p a u|c rn]; cbn [hist_okb hist_ok]; try discriminate.
   - intros H. repeat (apply andb_true_iff in H; destruct H as [H ?]). split; [|intros; discriminate].
-    repeat split.
+    split; [|split; [|split; [|split; [|split]]]].
     + apply rootedb_spec. assumption.
     + apply N.eqb_neq. apply negb_true_iff. assumption.
     + apply N.eqb_neq. apply negb_true_iff. assumption.
     + apply wfb_wf. assumption.
     + apply rangeb_range. assumption.
     + apply owner_okb_spec; assumption.
-    + apply owner_okb_spec; assumption.
   - intros H. repeat (apply andb_true_iff in H; destruct H as [H ?]). split.
-    + repeat split.
+    + split; [|split; [|split; [|split; [|split; [|split; [|split]]]]]].
       * apply rootedb_spec. assumption.
       * apply N.eqb_neq. apply negb_true_iff. assumption.
       * apply N.eqb_neq. apply negb_true_iff. assumption.
       * apply wfb_wf. assumption.
       * apply rangeb_range. assumption.
       * apply existsb_exists in H2. destruct H2 as (e & Hin & He). exists e. split; [assumption|apply N.eqb_eq; assumption].
-      * apply owner_okb_spec; assumption.
       * apply owner_okb_spec; assumption.
       * intros -> k. rewrite forallb_forall in H0.
         destruct (in_dec N.eq_dec k (keys r ++ all_keys_of L)) as [Hin|Hni]; [apply Z.eqb_eq; apply H0; assumption|].
